@@ -92,6 +92,14 @@ fn universe(tier: Tier, v: &mut impl Visitor) {
 
 fn main() {
     quiet_panics();
+    // history: the single-precision instances run first.  State shared between the float widths
+    // (a lazily initialised table inside a generic function is shared by all instantiations) would
+    // then be initialised by the f32 code before any f64 evaluation is checked
+    {
+        use num_dual::DualNum;
+        let w = [0.5f32.sph_j0(), 0.5f32.sph_j1(), 0.5f32.sph_j2(), num_dual::Dual32::new(0.25, 1.0).sph_j1().re];
+        assert!(w.iter().all(|v| v.is_finite()), "MACHINERY: warm-up");
+    }
     let cli = cli();
     if let Some(path) = &cli.replay {
         run_replay_tol(PROP, path, cfg(), &|f| universe(Tier::Thorough, f));
